@@ -8,6 +8,9 @@ import numpy
 from hypothesis import strategies as st
 
 ID = "C13"
+TECHNIQUE = 'Hypothesis-generated axes/data + complete enumeration of lengths, against the defining Fourier sum (dense matrix product) and the identity round trip'
+LEVEL = 'Every length 2..257, both domains and both axis types are enumerated with fixed data, and starts, steps and complex data are generated; the returned transform is compared point by point with the defining sum on the returned axis, FT followed by inverse FT with the original values and axis, and the axis round trip element-wise (tolerance 1e-10*N relative).'
+NOTE = 'Inverse-first round trips and round trips of upper-half frequency-domain functions are not claimed (not stated by the property / not injective). Lengths > 257 are not explored.'
 EXHAUSTIVE = True
 RULE = ("generated: (domain time|frequency, axis type complete|upper-half, length 2..257, start, step, complex "
         "integer-valued data; f(0) real on upper-half axes); grid: every length 2..64 (quick) / 2..257 (thorough) x "
